@@ -178,3 +178,78 @@ def real_holds(cond, x):
     rv = x if r == "r" else (REAL_CONSTS[r] if isinstance(r, str) else r)
     got = {"eq": lv == rv, "ne": lv != rv, "lt": lv < rv, "le": lv <= rv, "gt": lv > rv, "ge": lv >= rv}[op]
     return got == val
+
+
+# ------------------------------------------------------------------------------------------------ print, then read back with the crate's reader
+
+def build(m, spec):
+    """spec -> abstract Value: ("sym", s) | ("int", n) | ("bool", b) | ("vec", [..]) | ("list", [..], tail|None)"""
+    k = spec[0]
+    if k == "sym":
+        return m.value("Symbol", spec[1])
+    if k == "int":
+        return m.number("Integer", spec[1])
+    if k == "bool":
+        return m.value("Boolean", spec[1])
+    if k == "vec":
+        return m.vec([build(m, x) for x in spec[1]])
+    if k == "list":
+        return m.lst([build(m, x) for x in spec[1]], build(m, spec[2]) if spec[2] is not None else None)
+    raise ValueError(k)
+
+
+def readback_specs():
+    S = lambda n: ("sym", n)
+    L = lambda *xs, **kw: ("list", list(xs), kw.get("tail"))
+    V = lambda *xs: ("vec", list(xs))
+    a, b, c = S("a"), S("b"), S("c")
+    out = [("()", L()), ("(a)", L(a)), ("(a b c)", L(a, b, c)), ("(a . b)", L(a, tail=b)), ("(a b . c)", L(a, b, tail=c)), ("((a) b)", L(L(a), b)),
+           ("(a ())", L(a, L())), ("#()", V()), ("#(a b c)", V(a, b, c)), ("#(#(a) (b))", V(V(a), L(b))), ("(#(a) . b)", L(V(a), tail=b)),
+           ("(#t #f)", L(("bool", True), ("bool", False))), ("(1 -2 0)", L(("int", 1), ("int", -2), ("int", 0))), ("#((a . b) ())", V(L(a, tail=b), L())),
+           ("(a . #(b))", L(a, tail=V(b))), ("(((a)))", L(L(L(a))))]
+    # the symbols the reader's abbreviations stand for, in every position and context: the printed text has to read back as the same
+    # structure whether or not the printer abbreviates
+    for kw in ("quote", "quasiquote", "unquote", "unquote-splicing"):
+        out += [("(%s a)" % kw, L(S(kw), a)), ("#((%s a) b)" % kw, V(L(S(kw), a), b)), ("(b (%s a) c)" % kw, L(b, L(S(kw), a), c)),
+                ("(b . #((%s a)))" % kw, L(b, tail=V(L(S(kw), a)))), ("((%s a) . b)" % kw, L(L(S(kw), a), tail=b)),
+                ("(%s)" % kw, L(S(kw))), ("(%s a b)" % kw, L(S(kw), a, b)), ("(%s . a)" % kw, L(S(kw), tail=a)), ("#(%s a)" % kw, V(S(kw), a)),
+                ("(a %s b)" % kw, L(a, S(kw), b)), ("(%s (%s a))" % (kw, kw), L(S(kw), L(S(kw), a))), ("(%s #(a))" % kw, L(S(kw), V(a))),
+                ("(%s (a b))" % kw, L(S(kw), L(a, b)))]
+    return out
+
+
+def rule_readback(ctx, rule):
+    """the text printed for a value, prefixed with ' and handed to the crate's own reader (readtables.py), comes back as (quote V)
+    with V the same structure: same nesting, same atoms, dotted tails only where the value has them"""
+    from . import readtables
+    from .ctx import where_of
+    fb = ctx.fb()
+    vf = fb.find("<values::Value as std::fmt::Display>::fmt")
+    m = Mk(fb)
+    decided = 0
+    for label, spec in readback_specs():
+        key = "read-back/%s" % label
+        t = print_value(fb, build(m, spec))
+        if isinstance(t, tuple):
+            ctx.undecided(rule, key, "cannot follow the printer on %s (%s)" % (label, t[1]), where_of(vf))
+            continue
+        txt, holes = fill(t)
+        if holes:
+            ctx.undecided(rule, key, "the printed text of %s has parts that are not known text (%r)" % (label, t), where_of(vf))
+            continue
+        r = readtables.read(fb, "'" + txt + " ")
+        if r[0] in ("stuck",):
+            ctx.undecided(rule, key, "cannot follow the reader on the printed text %r (%s)" % (txt, r[1]), where_of(vf))
+            continue
+        decided += 1
+        want = ("list", [("sym", "quote"), spec], None)
+        good = r[0] == "datum" and r[1] == want and r[2] == r[3]
+        ctx.inst(rule, key, {"printed": txt, "reads_back": good})
+        ctx.oblige(good)
+        if not good:
+            got = readtables.show(r[1]) if r[0] == "datum" else ("a syntax error (%s)" % (r[1],) if r[0] == "error" else repr(r))
+            if r[0] == "datum" and r[2] != r[3]:
+                got += " followed by %d unread token(s)" % (r[3] - r[2])
+            ctx.report(rule, key, "the value %s is printed as %r; quoted and read back that is %s, expected %s" % (
+                label, txt, got, readtables.show(want)), where_of(vf))
+    return decided
